@@ -230,5 +230,19 @@ def replay_hash(v):
     return hashlib.sha1(s.encode()).hexdigest()[:12]
 
 
-__all__ = ["Divergence", "DiffChooser", "ReplayMismatch", "diff_chooser", "explore_task",
+def nest_tasks(entries, family, alpha, bound=1, **extra):
+    """Families in which, while the call under test is inside a callback, a complete second call
+    runs through the same policy object (single-threaded overlap).  The property's own monitor
+    is applied to the outer call unchanged."""
+    import itertools as _it
+    out = []
+    for site, e, script in _it.product(["aend", "metric", "strategy"], entries,
+                                       [["x:P"], ["r:U", "x:U", "x:U"], ["ok"]]):
+        cfg = dict(M=3, alphabet=alpha, attempt_hooks="call", max_unknown=1,
+                   nest={"site": site, "entry": e, "script": script}, **extra)
+        out.append({"family": family, "cfg": cfg, "entry": e, "bound": bound})
+    return out
+
+
+__all__ = ["nest_tasks", "Divergence", "DiffChooser", "ReplayMismatch", "diff_chooser", "explore_task",
            "merge", "new_result", "jsonable", "outcome_sig", "replay_hash", "seq"]
